@@ -31,11 +31,17 @@ def guard_list(it: Interp):
 
 def compare_guards(rep, R, site, k, got_it, want_it, what):
     got, want = guard_list(got_it), guard_list(want_it)
+    opaque = [(g[1],) for g in got_it.guards if g[0] == "raise-in-callback"]
     ok = True
     for (wc, wh, wp) in want:
         match = [g for g in got if equal(g[0], wc) and len(g[2]) == len(wp) and all(equal(a, b) for a, b in zip(g[2], wp))]
         kk = f"{k}:raises-if({show(wc, 90)})"
-        if not match:
+        if not match and opaque:
+            ok = False
+            rep.undecided(R, site, kk, f"{what}: the implementation raises inside a function handed to an iteration "
+                                       f"combinator ({show(opaque[0][0], 120)}); whether that covers this case cannot "
+                                       f"be related to the reference form")
+        elif not match:
             ok = False
             near = [g for g in got if g[1] == wh]
             why = f"no guard raising on {show(wc, 200)}"
